@@ -1,4 +1,15 @@
 """C19: Lamport clock (spec/Lamport.tla)."""
+PROPS = ["C19"]
+# id: (level, what the check establishes, trusted base / assumptions, technique, DESIGN.md section)
+CLAIMS = {
+    'C19': (
+        'model_checking',
+        'TLC checks C19 exhaustively on spec/Lamport.tla (2 threads x 2 calls and 3 threads x 1 call over Time/Increment/Witness with values {0,1,2,MAX-1,MAX}, every interleaving of the atomic accesses, MAX standing for 2^64-1); the real LamportClock, yield-instrumented from the working tree, is run under every schedule with <=2 (thorough 3) preemptions plus random ones by a cooperative scheduler, and every scheduling step is validated by TLC against the spec (subset construction over the unlogged locals) with the C19 monitor on the observed counter and results.',
+        'Trusts TLC, the instrumenter (yield before every statement of lamport.go), the gap embedding of 0..MAX into uint64. The wrap at 2^64-1 is a recorded known finding (tag at_top).',
+        'TLA+ spec + TLC exhaustive check; systematic schedule enumeration of the instrumented real code; TLC trace validation with property monitors',
+        '5 C19',
+    ),
+}
 import itertools
 import json
 import os
